@@ -372,6 +372,7 @@ class World:
         cb, args = h
         self.sim.log('SIGTERM')
         self.sim.stats['sigterm'] += 1
+        srv.sigterm_sent = True
         cb(*args)
         return True
 
@@ -444,6 +445,7 @@ class World:
             return 'crash'
         self.server_exits.append(srv.exit)
         self._close_real_dbs(srv)
+        self.last_server = srv
         self.server = None
         self.net.reset_server_side()
         try:
